@@ -79,7 +79,7 @@ func c08Templates(batch, nbatch int) []*gram.Grammar {
 	grp := func(mode string, k *gram.Expr) *gram.Expr {
 		return &gram.Expr{Op: "grp", Mode: mode, Kids: []*gram.Expr{k}}
 	}
-	prefixes := []string{"none", "opt", "star", "poslook", "neglook", "consume", "bracketopt", "optgroup2"}
+	prefixes := []string{"none", "opt", "star", "poslook", "neglook", "consume", "bracketopt", "optgroup2", "nullable-production", "nullable-chain", "nullable-then-dependent"}
 	wrappers := []string{"bare", "paren", "optgroup", "stargroup", "look", "neg", "plusgroup", "captured-group-before"}
 	routes := []string{"direct", "viaB", "viaUnion", "viaBnullableprefix"}
 	altpos := []string{"first", "second-after-single", "second-after-multi", "third"}
@@ -96,7 +96,29 @@ func c08Templates(batch, nbatch int) []*gram.Grammar {
 					A, B, C, U := id+"A", id+"B", id+"C", id+"U"
 					g := &gram.Grammar{ID: id, Root: A, Profile: gram.ProfDefault, Feat: []string{"prefix=" + pf, "wrapper=" + wr, "route=" + rt, "alt=" + ap}}
 					// the reference that closes the cycle, capturing into field fidx of its production
-					mkRef := func(fidx int) []*gram.Expr {
+					N1, N2 := id+"N1", id+"N2"
+					needN := 0
+					mkRefT := func(fields *[]gram.Field, target string) []*gram.Expr {
+						var pre []*gram.Expr
+						switch pf {
+						case "nullable-production":
+							*fields = append(*fields, gram.Field{Name: fmt.Sprintf("F%d", len(*fields)), Kind: "ptr", Target: N1})
+							pre = append(pre, &gram.Expr{Op: "sub", Field: len(*fields) - 1})
+							needN = 1
+						case "nullable-then-dependent":
+							// @@N1 @@N2 with N2 = @@N1 ...: N2 is discovered after the production it depends on
+							*fields = append(*fields, gram.Field{Name: fmt.Sprintf("F%d", len(*fields)), Kind: "ptr", Target: N1})
+							pre = append(pre, &gram.Expr{Op: "sub", Field: len(*fields) - 1})
+							*fields = append(*fields, gram.Field{Name: fmt.Sprintf("F%d", len(*fields)), Kind: "ptr", Target: N2})
+							pre = append(pre, &gram.Expr{Op: "sub", Field: len(*fields) - 1})
+							needN = 2
+						case "nullable-chain":
+							*fields = append(*fields, gram.Field{Name: fmt.Sprintf("F%d", len(*fields)), Kind: "ptr", Target: N2})
+							pre = append(pre, &gram.Expr{Op: "sub", Field: len(*fields) - 1})
+							needN = 2
+						}
+						*fields = append(*fields, gram.Field{Name: fmt.Sprintf("F%d", len(*fields)), Kind: "ptr", Target: target})
+						fidx := len(*fields) - 1
 						sub := &gram.Expr{Op: "sub", Field: fidx}
 						var w *gram.Expr
 						switch wr {
@@ -117,7 +139,6 @@ func c08Templates(batch, nbatch int) []*gram.Grammar {
 						case "captured-group-before":
 							w = sub
 						}
-						var pre []*gram.Expr
 						switch pf {
 						case "opt":
 							pre = append(pre, grp("?", lit("x")))
@@ -141,8 +162,7 @@ func c08Templates(batch, nbatch int) []*gram.Grammar {
 					var recAlt *gram.Expr
 					switch rt {
 					case "direct":
-						aFields = []gram.Field{{Name: "F0", Kind: "ptr", Target: A}}
-						recAlt = seq(mkRef(0)...)
+						recAlt = seq(mkRefT(&aFields, A)...)
 					case "viaB", "viaBnullableprefix":
 						aFields = []gram.Field{{Name: "F0", Kind: "ptr", Target: B}}
 						if rt == "viaB" {
@@ -150,14 +170,19 @@ func c08Templates(batch, nbatch int) []*gram.Grammar {
 						} else {
 							recAlt = seq(grp("?", lit("v")), &gram.Expr{Op: "sub", Field: 0}, lit("e"))
 						}
-						bexpr := &gram.Expr{Op: "alt", Kids: []*gram.Expr{seq(lit("b"), lit("c")), seq(mkRef(0)...)}}
-						g.Prods = append(g.Prods, &gram.Prod{Name: B, Fields: []gram.Field{{Name: "F0", Kind: "ptr", Target: A}}, Expr: bexpr, PosStyle: 0})
+						var bFields []gram.Field
+						bexpr := &gram.Expr{Op: "alt", Kids: []*gram.Expr{seq(lit("b"), lit("c")), seq(mkRefT(&bFields, A)...)}}
+						g.Prods = append(g.Prods, &gram.Prod{Name: B, Fields: bFields, Expr: bexpr, PosStyle: 0})
 					case "viaUnion":
 						aFields = []gram.Field{{Name: "F0", Kind: "uni", Target: U}}
 						recAlt = seq(&gram.Expr{Op: "sub", Field: 0}, lit("e"))
 						g.Prods = append(g.Prods,
 							&gram.Prod{Name: C, Fields: []gram.Field{{Name: "F0", Kind: "string"}}, Expr: seq(lit("c"), &gram.Expr{Op: "cap", Field: 0, Kids: []*gram.Expr{{Op: "ref", Typ: "Ident"}}})},
-							&gram.Prod{Name: B, Fields: []gram.Field{{Name: "F0", Kind: "ptr", Target: A}}, Expr: seq(mkRef(0)...)})
+							func() *gram.Prod {
+								var bFields []gram.Field
+								e := seq(mkRefT(&bFields, A)...)
+								return &gram.Prod{Name: B, Fields: bFields, Expr: e}
+							}())
 						g.Unions = append(g.Unions, &gram.Union{Name: U, Members: []gram.Member{{Prod: C}, {Prod: B, Ptr: true}}})
 					}
 					single := lit("t")
@@ -175,6 +200,15 @@ func c08Templates(batch, nbatch int) []*gram.Grammar {
 					}
 					aprod := &gram.Prod{Name: A, Fields: aFields, Expr: aexpr}
 					g.Prods = append([]*gram.Prod{aprod}, g.Prods...)
+					if needN >= 1 {
+						n1 := &gram.Prod{Name: N1, Fields: []gram.Field{{Name: "F0", Kind: "string"}}, Expr: grp("?", &gram.Expr{Op: "cap", Field: 0, Kids: []*gram.Expr{lit("x")}})}
+						if needN == 2 {
+							n2 := &gram.Prod{Name: N2, Fields: []gram.Field{{Name: "F0", Kind: "ptr", Target: N1}, {Name: "F1", Kind: "string"}}, Expr: seq(&gram.Expr{Op: "sub", Field: 0}, grp("*", &gram.Expr{Op: "cap", Field: 1, Kids: []*gram.Expr{lit("w")}}))}
+							g.Prods = append(g.Prods, n2, n1)
+						} else {
+							g.Prods = append(g.Prods, n1)
+						}
+					}
 					an := gram.Analyse(g)
 					if an.BugClass() != "" {
 						continue
